@@ -10,6 +10,7 @@
 mod exec;
 mod gen;
 mod tab;
+mod two;
 
 use exec::State;
 use serde_json::{json, Value};
@@ -95,6 +96,9 @@ fn main() {
                 let n = hdr["n"].as_u64().unwrap_or(0) as usize;
                 let tys = hdr["tys"].as_str().unwrap_or("both");
                 let mut kinds: Vec<&str> = Vec::new();
+                if tys == "two" {
+                    kinds.push("two");
+                }
                 if (tys == "both" || tys == "lut") && (ty == "both" || ty == "lut") {
                     kinds.push("lut");
                 }
@@ -103,7 +107,12 @@ fn main() {
                 }
                 for k in kinds {
                     let mut evs: Vec<Value> = Vec::new();
-                    if k == "lut" {
+                    if k == "two" {
+                        let mut st = two::TwoState::new();
+                        for op in ep {
+                            evs.push(st.exec(op));
+                        }
+                    } else if k == "lut" {
                         run_episode::<Lut>(ep, &mut evs);
                     } else {
                         with_static!(n, L, run_episode::<L>(ep, &mut evs));
